@@ -143,12 +143,9 @@ def constraintOk (distinct sorted : Bool) (is : List Nat) : Bool :=
 
 /-! ### `validate` of the geno layer -/
 
-section
-/- `strict = false`: exactly what `spec.validate(dna)` accepts. `strict = true` additionally
-demands that a node whose *children* carry the decisions (a space of >= 2 decision points, a
-multi-choice) has no value of its own — `validate`, `decode` ignore such a stray value, `encode`
-never produces it (finding F85). -/
-variable (strict : Bool)
+/- `validate` demands that a node whose *children* carry the decisions (a space of >= 2 decision
+points, a multi-choice) has no value of its own (geno/space.py, geno/categorical.py since the fix
+of finding F85; before it such a stray value was ignored). -/
 
 /-- One (sub-)choice node `(i, children)` against the candidate validators: the index is an int in
 range, and the re-rooted children `DNA(None, children)` are valid for candidate `i`. For a single
@@ -167,11 +164,11 @@ mutual
     | .space elems, d =>
       match splitDna elems.length d with
       | none => false
-      | some ds => (!strict || decide (elems.length < 2) || d.value.isNone) && validL elems ds
+      | some ds => (decide (elems.length < 2) || d.value.isNone) && validL elems ds
     | .choices k cands distinct sorted, d =>
       if k = 1 then validSub (candV cands) true d
       else
-        (!strict || d.value.isNone) &&
+        d.value.isNone &&
         decide (d.children.length = k) &&
         (match allIdx d.children with
          | none => false
@@ -188,8 +185,6 @@ mutual
   def candV : List GSpec → List (Bool × (DNA → Bool))
     | [] => []
     | c :: cs => (c.isConstSpace, fun d => validG c d) :: candV cs
-end
-
 end
 
 /-! ### Enumeration and size of finite spaces (what `pg.iter` sweeps) -/
